@@ -32,7 +32,9 @@ EXPLANATION = (
     'never merged into a different field; R-C02.9 on SQLite only the null-change handler records an '
     'initial value on a MODIFY COLUMN item (anything else would rewrite '
     'stored NULLs of a column whose NULL-ability does not change); '
-    'R-C02.10 no declared initial value is used as a truth value (shared with R-C03.8).')
+    'R-C02.10 no declared initial value is used as a truth value (shared with R-C03.8).'
+    ' '
+    'R-C02.11 (= R-C03.15) no function changes a local container after handing it to a signature constructor that keeps `param or <fresh>` (the change is lost for an empty container).')
 NOT_DECIDED = (
     'Equality of row contents before/after for all rows and sequences; '
     'behaviour of renames at the SQL level.')
@@ -613,7 +615,13 @@ def r10_initial_sentinel(ctx):
     r8_initial_sentinel(ctx, rule_id='R-C02.10')
 
 
+def r11_no_write_after_handover(ctx):
+    from .c03 import r15_no_write_after_conditional_handover
+    r15_no_write_after_conditional_handover(ctx, rule_id='R-C02.11')
+
+
 def run(ctx):
+    r11_no_write_after_handover(ctx)
     r10_initial_sentinel(ctx)
     r9_initial_only_for_null_change(ctx)
     r8_optimiser_bookkeeping(ctx)
